@@ -261,3 +261,130 @@ Print Assumptions c15_pattern_vars_full_spec. Print Assumptions c15_pattern_vars
 Print Assumptions c15_variable_below_any_context_reported. Print Assumptions c15_rebinding_below_any_context_rejected.
 Print Assumptions c15_first_binder_below_any_context_rejected. Print Assumptions c15_contexts_depth2.
 Print Assumptions c15_at_subpattern_reported.
+
+(* ------------------------------------------------------------------ the SPELLING of an attribute
+   Check/AttrPaths.v: an attribute is its path (leading `::`, segments) and the form of its arguments (none / a delimited
+   list / `= value`); [sp_check] / [sp_invoke] are the front end on a text whose attributes are spelled, at every position
+   (#![..] of the program, struct signature, relation, rule, macro definition, include_source!, items of an included source).
+   The real code decides "recognised" on the WHOLE path: syn's is_ident / get_ident are Some only for a path without leading
+   `::` that has exactly one segment.  [lower_text] classifies every attribute the way the real code does and yields the
+   text of the theorems above. *)
+From AV Require Import Check.AttrPaths.
+From AV Require Import Check.AttrPathsLaws.
+
+(* recognised = the path IS one of measure_rule_times, generate_run_timeout, inter_rule_parallelism, ds; the arguments play
+   no part; a leading `::` or a second segment makes the attribute unrecognised whatever its last segment is *)
+Theorem c15_recognised_is_exact_path : forall a, recognised a = true <-> exists n, In n recognised_names /\ sa_path a = ident_path n.
+Proof. exact recognised_spec. Qed.
+Theorem c15_path_prefix_not_recognised : forall a, length (ap_segs (sa_path a)) <> 1 -> recognised a = false.
+Proof. exact not_recognised_several_segments. Qed.
+Theorem c15_leading_colon_not_recognised : forall a, ap_lead (sa_path a) = true -> recognised a = false.
+Proof. exact not_recognised_leading_colon. Qed.
+
+(* program position: an attribute that is not recognised is rejected, in any spelling, under every macro ... *)
+Theorem c15_unrecognised_program_attribute_rejected : forall c0 T k a, In a (st_attrs T) -> recognised a = false ->
+  exists e, sp_check c0 T k = SReject e.
+Proof. exact unrecognised_program_attribute_rejected. Qed.
+(* ... by the invocation that sees it unless that invocation stops at an include_source! (the re-invocation sees the same #![..]) ... *)
+Theorem c15_unrecognised_program_attribute_invocation : forall c0 T k a, In a (st_attrs T) -> recognised a = false ->
+  sp_invoke c0 T k = SDeferred \/ exists e, sp_invoke c0 T k = SReject e.
+Proof. exact unrecognised_program_attribute_invoke. Qed.
+(* ... with the error "unrecognized attribute" as soon as the earlier stages pass and the flags of the program are bare paths *)
+Theorem c15_unrecognised_program_attribute_class : forall c0 T k a its xr, In a (st_attrs T) -> recognised a = false ->
+  flatten 0 (p_items (sp_program T)) = OK its -> expand_rules (macros_of its) (rules_of its) = OK xr ->
+  check_rules (decls_of its) (ds_rules c0 xr) = OK tt -> flags_ok (st_attrs T) = true ->
+  sp_check c0 T k = SReject (SBase EUnknownAttr).
+Proof. exact unrecognised_program_attribute_class. Qed.
+Theorem c15_unrecognised_attribute_stage : forall sa k a, In a sa -> recognised a = false ->
+  sp_check_attrs sa k = RErr (if flags_ok sa then SBase EUnknownAttr else SFlagArgs).
+Proof. exact sp_check_attrs_unrecognised. Qed.
+
+(* rule / macro definition / include_source! position (of the program or of an included source): ANY attribute, in any
+   spelling, is rejected; with the class "unexpected attribute(s)" by the invocation itself when the item comes first *)
+Theorem c15_spelled_attribute_on_non_relation_rejected : forall c0 T k p a x, nth_error (st_items T) p = Some (a, x) -> a <> [] ->
+  sp_nonrel x -> exists e, sp_check c0 T k = SReject e.
+Proof. exact spelled_attribute_on_non_relation_rejected. Qed.
+Theorem c15_spelled_attribute_in_source_rejected : forall c0 T k p a src q a' y, nth_error (st_items T) p = Some (a, SBInclude src) ->
+  nth_error src q = Some (a', y) -> a' <> [] -> sp_nonrel1 y -> exists e, sp_check c0 T k = SReject e.
+Proof. exact spelled_attribute_in_source_rejected. Qed.
+Theorem c15_spelled_attribute_on_first_item_rejected : forall c0 T k a x tl, st_items T = (a, x) :: tl -> a <> [] -> sp_nonrel x ->
+  sp_invoke c0 T k = SReject (SBase EUnexpectedAttr) /\ sp_check c0 T k = SReject (SBase EUnexpectedAttr).
+Proof. exact spelled_attribute_on_first_item_rejected. Qed.
+
+(* relation position: only an attribute whose path is exactly `ds` is the macro's; every other one (`ascent::ds(..)`,
+   `::ds(..)`, `my_tools::profile(level = 3)`) is handed to the struct field (its rejection is rustc's: checked on generated
+   crates by the tie); the attributes of the signature never reach a check *)
+Theorem c15_relation_decision_ignores_other_attributes : forall d a, sp_check_decl (d, filter (named n_ds) a) = sp_check_decl (d, a).
+Proof. exact relation_decision_ignores_other_attributes. Qed.
+Theorem c15_field_attributes : forall a x, In x (field_attrs a) <-> In x a /\ sa_path x <> ident_path n_ds.
+Proof. exact field_attrs_spec. Qed.
+(* at the level of the whole front end: erase the signature's attributes and, on every relation and lattice of the program and
+   of its included sources, everything but an exact `ds` — both verdicts are unchanged *)
+Theorem c15_handed_on_attributes_pass_through : forall c0 T k,
+  sp_check c0 (sstrip T) k = sp_check c0 T k /\ sp_invoke c0 (sstrip T) k = sp_invoke c0 T k.
+Proof. exact handed_on_attributes_pass_through. Qed.
+Theorem c15_signature_attributes_ignored : forall c0 T k s,
+  sp_check c0 {| st_attrs := st_attrs T; st_sig := s; st_items := st_items T |} k = sp_check c0 T k /\
+  sp_invoke c0 {| st_attrs := st_attrs T; st_sig := s; st_items := st_items T |} k = sp_invoke c0 T k.
+Proof. exact signature_attributes_ignored. Qed.
+
+(* the spelled model extends the classified one conservatively: it accepts only what that one accepts, rejects whatever that
+   one rejects, and IS that one when every recognised attribute has the argument form its name demands — so every theorem
+   above about [check_text] speaks about spelled texts *)
+Theorem c15_spelled_accept_sound : forall c0 T k, sp_check c0 T k = SAccept -> check_text c0 (lower_text T) k = Accept.
+Proof. exact sp_accept_sound. Qed.
+Theorem c15_spelled_reject_complete : forall c0 T k e, check_text c0 (lower_text T) k = Reject e -> exists e', sp_check c0 T k = SReject e'.
+Proof. exact sp_reject_complete. Qed.
+Theorem c15_spelled_invoke_reject_complete : forall c0 T k e, invoke_text c0 (lower_text T) k = Reject e -> exists e', sp_invoke c0 T k = SReject e'.
+Proof. exact sp_invoke_reject_complete. Qed.
+Theorem c15_spelled_conservative : forall c0 T k, text_canonical T ->
+  sp_check c0 T k = inj_verdict (check_text c0 (lower_text T) k) /\ sp_invoke c0 T k = inj_verdict (invoke_text c0 (lower_text T) k).
+Proof. intros c0 T k H. exact (conj (sp_check_conservative c0 T k H) (sp_invoke_conservative c0 T k H)). Qed.
+
+(* the flags: one written with arguments is rejected when it is the first attribute of its name (AscentConfig::new looks the
+   flag up with `find`) — the full statement "a flag with arguments is rejected" is refuted by the faithful model:
+   #![measure_rule_times] #![measure_rule_times(1)] is accepted (by the real code too) *)
+Theorem c15_flag_with_arguments_rejected_partial : forall sa k pre a post n, sa = pre ++ a :: post ->
+  In n [n_measure_rule_times; n_generate_run_timeout; n_inter_rule_parallelism] -> named n a = true -> path_only a = false ->
+  (forall b, In b pre -> named n b = false) -> sp_check_attrs sa k = RErr SFlagArgs.
+Proof. exact flag_with_arguments_rejected_partial. Qed.
+Theorem c15_flag_with_arguments_rejected_refuted : exists sa, In mrt_with_args sa /\ forall k, sp_check_attrs sa k = ROK tt.
+Proof. exact flag_with_arguments_rejected_refuted. Qed.
+
+(* a front end that dispatches on the NAME of an attribute (one pass over the attributes for which get_ident is Some) agrees
+   with AscentConfig::new on single identifiers and silently drops every path attribute *)
+Theorem c15_dispatch_by_name_agrees_on_identifiers : forall sa k, forallb has_name sa = true -> sp_check_attrs_by_name sa k = sp_check_attrs sa k.
+Proof. exact by_name_agrees. Qed.
+Theorem c15_dispatch_by_name_refuted : exists a, recognised a = false /\ forall k, sp_check_attrs_by_name [a] k = ROK tt.
+Proof. exact by_name_dispatch_refuted. Qed.
+
+(* computed: #![ascent::trace_rules] #![::trace_rules] #![my_tools::profile(..)] #![ascent::measure_rule_times] #![::ds(..)]
+   #![a::b::c = v] — unrecognised, rejected by AscentConfig::new, dropped by the dispatch on names; at every position x 4 macros *)
+Example c15_path_attributes :
+  forallb (fun a => negb (recognised a)) unnamed_samples = true /\
+  map (fun a => sp_check_attrs [a] KAscentPar) unnamed_samples = repeat (RErr (SBase EUnknownAttr)) 6 /\
+  map (fun a => sp_check_attrs_by_name [a] KAscentPar) unnamed_samples = repeat (ROK tt) 6.
+Proof. exact unnamed_samples_verdicts. Qed.
+Example c15_unrecognised_at_every_position :
+  forallb (fun a =>
+    forallb (fun pos =>
+      match pos with
+      | AtProgram => forallb (fun v => match v with SReject (SBase EUnknownAttr) | SDeferred => true | _ => false end) (verdicts (place pos a))
+                     && forallb (fun v => match v with SReject (SBase EUnknownAttr) => true | _ => false end) (map (sp_check [] (place pos a)) all_kinds)
+      | AtRule | AtMacro | AtInclude | AtSourceRule =>
+          forallb (fun v => match v with SReject (SBase EUnexpectedAttr) | SDeferred => true | _ => false end) (verdicts (place pos a))
+          && forallb (fun v => match v with SReject (SBase EUnexpectedAttr) => true | _ => false end) (map (sp_check [] (place pos a)) all_kinds)
+      | _ => forallb (fun v => match v with SAccept | SDeferred => true | _ => false end) (verdicts (place pos a))
+      end) positions) unnamed_samples = true.
+Proof. exact unrecognised_at_every_position. Qed.
+
+Print Assumptions c15_recognised_is_exact_path. Print Assumptions c15_path_prefix_not_recognised. Print Assumptions c15_leading_colon_not_recognised.
+Print Assumptions c15_unrecognised_program_attribute_rejected. Print Assumptions c15_unrecognised_program_attribute_invocation.
+Print Assumptions c15_unrecognised_program_attribute_class. Print Assumptions c15_unrecognised_attribute_stage.
+Print Assumptions c15_spelled_attribute_on_non_relation_rejected. Print Assumptions c15_spelled_attribute_in_source_rejected.
+Print Assumptions c15_spelled_attribute_on_first_item_rejected. Print Assumptions c15_relation_decision_ignores_other_attributes.
+Print Assumptions c15_field_attributes. Print Assumptions c15_signature_attributes_ignored. Print Assumptions c15_handed_on_attributes_pass_through.
+Print Assumptions c15_spelled_accept_sound. Print Assumptions c15_spelled_reject_complete. Print Assumptions c15_spelled_invoke_reject_complete.
+Print Assumptions c15_spelled_conservative. Print Assumptions c15_flag_with_arguments_rejected_partial.
+Print Assumptions c15_flag_with_arguments_rejected_refuted. Print Assumptions c15_dispatch_by_name_agrees_on_identifiers.
+Print Assumptions c15_dispatch_by_name_refuted. Print Assumptions c15_path_attributes. Print Assumptions c15_unrecognised_at_every_position.
